@@ -107,6 +107,18 @@ func runEmulator(events []eev) []string {
 	}
 	wait()
 	var obs []string
+	// direct calls run under a guard: after one that did not return (a lock never released) the emulator is not called again
+	stuck := false
+	call := func(f func()) bool {
+		if stuck {
+			return false
+		}
+		if !guarded(f) {
+			stuck = true
+			return false
+		}
+		return true
+	}
 	for _, ev := range events {
 		switch ev.kind {
 		case "recv":
@@ -130,15 +142,16 @@ func runEmulator(events []eev) []string {
 			}
 			obs = append(obs, "(OWrote "+nlists(port.written()[w0:])+")")
 		case "sendmode":
-			e.SetSendMode()
+			call(func() { e.SetSendMode() })
 			obs = append(obs, "ONone")
 		case "setconf":
-			e.SetOutputConguration(append(xsens.OutputConfiguration(nil), ev.cfg...))
+			call(func() { e.SetOutputConguration(append(xsens.OutputConfiguration(nil), ev.cfg...)) })
 			obs = append(obs, "ONone")
 		case "transmit":
 			w0 := len(port.written())
 			var err error
-			if p, _ := protect(func() { err = e.Transmit(xsens.Message(exact(ev.frame))) }); p {
+			var pn bool
+			if !call(func() { pn, _ = protect(func() { err = e.Transmit(xsens.Message(exact(ev.frame))) }) }) || pn {
 				obs = append(obs, "(OTx 9%Z [])")
 				continue
 			}
@@ -155,14 +168,19 @@ func runEmulator(events []eev) []string {
 			v := valueOfType(xsens.DataIdentifier{DataType: ev.dtype})
 			r := "(OMar None)"
 			if v != nil {
-				p, err := e.MarshalMessage(v, ev.dtype)
-				if err == nil {
+				var p []byte
+				var err error
+				if !call(func() { p, err = e.MarshalMessage(v, ev.dtype) }) {
+					r = "(OMar (Some 99999%Z))" // the call did not return
+				} else if err == nil {
 					r = fmt.Sprintf("(OMar (Some %d%%Z))", int(xsens.MTData2Packet(p).Identifier().Uint16()))
 				}
 			}
 			obs = append(obs, r)
 		case "lastid":
-			obs = append(obs, fmt.Sprintf("(OId %d%%Z)", int(e.LastMessageIdentifier())))
+			id := 9999 // the call did not return
+			call(func() { id = int(e.LastMessageIdentifier()) })
+			obs = append(obs, fmt.Sprintf("(OId %d%%Z)", id))
 		}
 	}
 	close(port.in)
